@@ -145,6 +145,58 @@ def reqEnv (exro woDisabled absent : Bool) (p : RS) : InjEnv :=
   { asreq := true, asrep := false, ro := p.ro, wo := p.wo, roDisabled := exro, woDisabled := woDisabled,
     hasDflt := p.dflt.isSome, absent := absent, defaultsSet := true }
 
+/-! ### The body-decoder registry as state (`RegisterBodyDecoder` / `UnregisterBodyDecoder`, a process-wide Go map)
+
+Every function of the model takes the registry as a parameter; here are the operations that change it between
+validations. A Go map assignment replaces, `delete` removes; the empty key / nil decoder panics are not modelled
+(never generated). -/
+
+inductive RegOp
+  | register (k : Str) (d : DecK)
+  | unregister (k : Str)
+  deriving Repr
+
+def RegOp.key : RegOp → Str | .register k _ => k | .unregister k => k
+
+/-- what the operation leaves under its key -/
+def RegOp.effect : RegOp → Option DecK | .register _ d => some d | .unregister _ => none
+
+def dropKey (k : Str) : List (Str × DecK) → List (Str × DecK)
+  | [] => []
+  | (k', v) :: r => if k' = k then dropKey k r else (k', v) :: dropKey k r
+
+def regApply (reg : List (Str × DecK)) : RegOp → List (Str × DecK)
+  | .register k d => (k, d) :: dropKey k reg
+  | .unregister k => dropKey k reg
+
+/-- the registry after a history of operations -/
+def regApplyAll (reg : List (Str × DecK)) (ops : List RegOp) : List (Str × DecK) := ops.foldl regApply reg
+
+/-- the specification of a history for one key: the last operation on that very key decides, else the initial entry -/
+def lastOn (k : Str) (ops : List RegOp) (init : Option DecK) : Option DecK :=
+  ops.foldl (fun acc op => if op.key = k then op.effect else acc) init
+
+theorem lookup_dropKey_self (k : Str) : ∀ reg : List (Str × DecK), lookup k (dropKey k reg) = none
+  | [] => rfl
+  | (k', v) :: r => by
+    have ih := lookup_dropKey_self k r
+    by_cases h : k' = k
+    · simp [dropKey, h, ih]
+    · have h' : ¬ k = k' := fun e => h e.symm
+      simp [dropKey, h, lookup, h', ih]
+
+theorem lookup_dropKey_other (k k' : Str) (hk : k' ≠ k) : ∀ reg : List (Str × DecK), lookup k' (dropKey k reg) = lookup k' reg
+  | [] => rfl
+  | (k2, v) :: r => by
+    have ih := lookup_dropKey_other k k' hk r
+    by_cases h : k2 = k
+    · have h' : ¬ k' = k2 := fun e => hk (e.trans h)
+      simp [dropKey, h, ih]
+      rw [← h]; simp [lookup, h']
+    · by_cases h2 : k' = k2
+      · simp [dropKey, h, lookup, h2]
+      · simp [dropKey, h, lookup, h2, ih]
+
 /-! ### Specification (property text: "for a request with a body … rejects … a missing required body") -/
 
 /-- the body a request carries: the bytes of its stream; a request whose `Body` is nil or `http.NoBody` carries
